@@ -91,6 +91,10 @@ def run(ck):
     # 1. TLC: the model of the shipped code satisfies every clause but the recorded finding D6 ...
     ck.mc("Throttle", "Throttle.mc.cfg", timeout=3000)
     ck.mc("Throttle", "Throttle.mc2.cfg", timeout=3000)
+    ck.mc("Throttle", "Throttle.mc5.cfg", timeout=3000)      # done-callbacks of the throttled futures that take time
+    if not quick:
+        # four jobs, one slot, non-blocking: cancels of jobs in the middle of the queue (FIFO among the survivors)
+        ck.mc("Throttle", "Throttle.mc3.cfg", timeout=3000)
     for cfg in ("Throttle.dyn.cfg", "Throttle.dyn2.cfg", "Throttle.dyn3.cfg"):      # count callable: 1->2, 2->raises, 1->None
         ck.mc("Throttle", cfg, timeout=3000)
     # 2. spec -> code replay
